@@ -12,12 +12,33 @@ On the reference tree this is the identity.  On a tree where locals were
 merely renamed it restores the reference spelling, so no rule sees the
 rename.  Where the defining expression itself changed the local keeps its own
 spelling and the rules judge the new code as it stands.
+
+Idiom canonicalisation (second half of this module).  The orientation of a
+two-armed `if`, the side on which a comparison is written, the order of the
+two factors of a product and a temporary in front of a `return` are not
+behaviour either; nor is an `else` after an arm that ends in return / raise /
+continue / break, a conditional expression standing for a two-armed `if` that
+assigns one name or returns, or `is not` / `!=` / `not in` with the arms
+exchanged.  `normal_form` removes exactly these freedoms (and nothing else); the reference table `sa/reference_fns.json.gz` records, per
+function, the digest of the normal form and the reference text.  A function
+of the analysed tree whose normal form has the recorded digest is *the
+reference function written differently*: it is replaced by the reference
+spelling before any rule runs, so no rule sees the re-writing.  A function
+whose normal form differs is judged as it stands.  The four rewritings are
+equivalences of Python semantics under conditions checked here: no class of
+the package overloads an operator (asserted by `operators_plain`), products
+and comparisons whose two operands both contain a call keep their order, the
+temporary is used nowhere else.
 """
 import ast
+import copy
+import gzip
 import hashlib
 import json
 import os
 
+FN_TABLE_PATH = os.path.join(os.path.dirname(os.path.abspath(__file__)),
+                             'reference_fns.json.gz')
 TABLE_PATH = os.path.join(os.path.dirname(os.path.abspath(__file__)),
                           'local_names.json')
 
@@ -327,6 +348,294 @@ def load_table():
     return _TABLE
 
 
+# ----------------------------------------------------------- idiom normal form
+def _has_call(e):
+    return any(isinstance(x, (ast.Call, ast.Yield, ast.YieldFrom, ast.Await,
+                              ast.NamedExpr)) for x in ast.walk(e))
+
+
+class _Normal(ast.NodeTransformer):
+    def visit_BinOp(self, n):
+        self.generic_visit(n)
+        if isinstance(n.op, ast.Mult) and not (
+                _has_call(n.left) and _has_call(n.right)):
+            if ast.dump(n.right) < ast.dump(n.left):
+                n.left, n.right = n.right, n.left
+        return n
+
+    FLIP = {ast.Gt: ast.Lt, ast.GtE: ast.LtE}
+
+    def visit_Compare(self, n):
+        self.generic_visit(n)
+        if len(n.ops) != 1 or (_has_call(n.left) and
+                               _has_call(n.comparators[0])):
+            return n
+        op = type(n.ops[0])
+        if op in self.FLIP:
+            n.left, n.comparators = n.comparators[0], [n.left]
+            n.ops = [self.FLIP[op]()]
+        elif op in (ast.Eq, ast.NotEq) and \
+                ast.dump(n.comparators[0]) < ast.dump(n.left):
+            n.left, n.comparators = n.comparators[0], [n.left]
+        return n
+
+    NEG = {ast.IsNot: ast.Is, ast.NotEq: ast.Eq, ast.NotIn: ast.In}
+
+    def visit_If(self, n):
+        self.generic_visit(n)
+        if n.orelse:
+            while True:
+                if isinstance(n.test, ast.UnaryOp) and \
+                        isinstance(n.test.op, ast.Not):
+                    n.test = n.test.operand
+                elif isinstance(n.test, ast.Compare) and \
+                        len(n.test.ops) == 1 and \
+                        type(n.test.ops[0]) in self.NEG:
+                    n.test.ops = [self.NEG[type(n.test.ops[0])]()]
+                else:
+                    break
+                n.body, n.orelse = n.orelse, n.body
+        return n
+
+
+_JUMPS = (ast.Return, ast.Raise, ast.Continue, ast.Break)
+
+
+def _blocks(node):
+    """every statement list below node: (owner, field, list)"""
+    for fld in ('body', 'orelse', 'finalbody'):
+        b = getattr(node, fld, None)
+        if isinstance(b, list) and b and isinstance(b[0], ast.stmt):
+            yield node, fld, b
+            for st in list(b):
+                yield from _blocks(st)
+    for h in getattr(node, 'handlers', []) or []:
+        yield from _blocks(h)
+
+
+def _simple_target(t):
+    return isinstance(t, ast.Name) or (
+        isinstance(t, ast.Attribute) and isinstance(t.value, ast.Name))
+
+
+def expand_ifexp(fn):
+    """`T = a if c else b` -> if c: T = a else: T = b (T a name or an
+    attribute of a name); `return a if c else b` -> if c: return a else:
+    return b"""
+    changed = True
+    while changed:
+        changed = False
+        for owner, fld, b in list(_blocks(fn)):
+            for i, st in enumerate(b):
+                if isinstance(st, ast.Assign) and len(st.targets) == 1 and \
+                        _simple_target(st.targets[0]) and \
+                        isinstance(st.value, ast.IfExp):
+                    e = st.value
+                    b[i] = ast.If(e.test, [ast.Assign(
+                        [copy.deepcopy(st.targets[0])], e.body)], [ast.Assign(
+                            [copy.deepcopy(st.targets[0])], e.orelse)])
+                    changed = True
+                elif isinstance(st, ast.Return) and \
+                        isinstance(st.value, ast.IfExp):
+                    e = st.value
+                    b[i] = ast.If(e.test, [ast.Return(e.body)],
+                                  [ast.Return(e.orelse)])
+                    changed = True
+    return fn
+
+
+def absorb_else(fn):
+    """`if c: ...jump` followed by R -> `if c: ...jump else: R`"""
+    changed = True
+    while changed:
+        changed = False
+        for owner, fld, b in list(_blocks(fn)):
+            for i, st in enumerate(b):
+                if isinstance(st, ast.If) and not st.orelse and \
+                        isinstance(st.body[-1], _JUMPS) and i + 1 < len(b):
+                    st.orelse = b[i + 1:]
+                    del b[i + 1:]
+                    changed = True
+                    break
+            if changed:
+                break
+    return fn
+
+
+def flatten_else(fn):
+    """`if c: ...jump else: R` -> `if c: ...jump` followed by R"""
+    changed = True
+    while changed:
+        changed = False
+        for owner, fld, b in list(_blocks(fn)):
+            for i, st in enumerate(b):
+                if isinstance(st, ast.If) and st.orelse and \
+                        isinstance(st.body[-1], _JUMPS):
+                    b[i + 1:i + 1] = st.orelse
+                    st.orelse = []
+                    changed = True
+                    break
+            if changed:
+                break
+    return fn
+
+
+def _inline_return_temps(fn):
+    """`t = e; return t` -> `return e` where every occurrence of t in the
+    function is in such a pair (nothing can read the binding afterwards)"""
+    count = {}
+    for x in ast.walk(fn):
+        if isinstance(x, ast.Name):
+            count[x.id] = count.get(x.id, 0) + 1
+        elif isinstance(x, (ast.Global, ast.Nonlocal)):
+            for nm in x.names:
+                count[nm] = count.get(nm, 0) + 1000
+        elif isinstance(x, ast.arg):
+            count[x.arg] = count.get(x.arg, 0) + 1000
+
+    def is_pair(prev, st):
+        return isinstance(st, ast.Return) and \
+            isinstance(st.value, ast.Name) and \
+            isinstance(prev, ast.Assign) and len(prev.targets) == 1 and \
+            isinstance(prev.targets[0], ast.Name) and \
+            prev.targets[0].id == st.value.id and not any(
+                isinstance(x, ast.Name) and x.id == st.value.id
+                for x in ast.walk(prev.value))
+
+    def blocks(node):
+        for fld in ('body', 'orelse', 'finalbody'):
+            b = getattr(node, fld, None)
+            if isinstance(b, list) and b and isinstance(b[0], ast.stmt):
+                yield node, fld, b
+                for st in b:
+                    yield from blocks(st)
+        for h in getattr(node, 'handlers', []) or []:
+            yield from blocks(h)
+    pairs = {}
+    for node, fld, b in blocks(fn):
+        for prev, st in zip(b, b[1:]):
+            if is_pair(prev, st):
+                pairs[st.value.id] = pairs.get(st.value.id, 0) + 1
+    good = {nm for nm, k in pairs.items() if count.get(nm) == 2 * k}
+    if not good:
+        return
+    for node, fld, b in list(blocks(fn)):
+        out = []
+        for st in b:
+            if out and is_pair(out[-1], st) and st.value.id in good:
+                st.value = out.pop().value
+            out.append(st)
+        b[:] = out
+
+
+def normal_form(fn):
+    """digest of the function with the four idiom freedoms removed"""
+    g = copy.deepcopy(fn)
+    _inline_return_temps(g)
+    expand_ifexp(g)
+    absorb_else(g)
+    g = _Normal().visit(g)
+    flatten_else(g)
+    return hashlib.sha1(ast.dump(g).encode()).hexdigest()
+
+
+def operators_plain(modules):
+    """names of operator methods defined by classes of the package (the
+    commutations of `normal_form` assume there are none)"""
+    bad = []
+    for rel, tree in modules.items():
+        for n in ast.walk(tree):
+            if isinstance(n, ast.FunctionDef) and n.name in (
+                    '__mul__', '__rmul__', '__imul__', '__lt__', '__gt__',
+                    '__le__', '__ge__', '__eq__', '__ne__', '__bool__'):
+                bad.append(f'{rel}:{n.name}')
+    return bad
+
+
+def build_fn_table(modules):
+    table = {}
+    for rel, tree in modules.items():
+        for key, fn in iter_functions(rel, tree):
+            table[key] = [normal_form(fn), ast.unparse(fn)]
+    return table
+
+
+_FN_TABLE = None
+
+
+def load_fn_table():
+    global _FN_TABLE
+    if _FN_TABLE is None:
+        try:
+            with gzip.open(FN_TABLE_PATH, 'rt', encoding='utf-8') as fh:
+                _FN_TABLE = json.load(fh)
+        except OSError:
+            _FN_TABLE = {}
+    return _FN_TABLE
+
+
+_REF_TESTS = None
+
+
+def reference_tests():
+    """texts of every branch condition (if / while / conditional expression)
+    of the reference tree's functions"""
+    global _REF_TESTS
+    if _REF_TESTS is None:
+        out = set()
+        for key, (h, src) in load_fn_table().items():
+            for n in ast.walk(ast.parse(src)):
+                if isinstance(n, (ast.If, ast.While, ast.IfExp)):
+                    out.add(' '.join(ast.unparse(n.test).split()))
+                elif isinstance(n, ast.Subscript) and isinstance(
+                        n.ctx, ast.Store) and not isinstance(
+                        n.slice, (ast.Constant, ast.Slice, ast.Tuple)):
+                    out.add(' '.join(ast.unparse(n.slice).split()))
+                elif isinstance(n, ast.Call) and isinstance(
+                        n.func, ast.Attribute) and n.func.attr == 'where' \
+                        and len(n.args) == 3:
+                    out.add(' '.join(ast.unparse(n.args[0]).split()))
+        _REF_TESTS = out
+    return _REF_TESTS
+
+
+RESTORED = []       # (rel, function key) restored during this process
+
+
+def restore_idioms(rel, tree):
+    """replace every function that is the reference function re-written
+    within the four idiom freedoms by the reference spelling"""
+    ft = load_fn_table()
+    if not ft:
+        return 0
+    n = 0
+
+    def consider(container, i, key, fn):
+        nonlocal n
+        ref = ft.get(key)
+        if not ref or normal_form(fn) != ref[0]:
+            return
+        if ast.unparse(fn) == ref[1]:
+            return
+        new = ast.parse(ref[1]).body[0]
+        ast.increment_lineno(new, fn.lineno - 1)
+        container[i] = new
+        RESTORED.append((rel, key))
+        n += 1
+    for i, node in enumerate(tree.body):
+        if isinstance(node, ast.FunctionDef):
+            consider(tree.body, i, func_key(rel, None, node, 'f'), node)
+        elif isinstance(node, ast.ClassDef):
+            seen = {}
+            for j, m in enumerate(node.body):
+                if isinstance(m, ast.FunctionDef):
+                    k = seen.get(m.name, 0)
+                    seen[m.name] = k + 1
+                    consider(node.body, j,
+                             func_key(rel, node.name, m, f'm{k}'), m)
+    return n
+
+
 def canonicalise(rel, tree, table=None, src=None):
     """rename locals of every function of the module to the reference
     spelling; returns the number of locals renamed.  A file whose text is the
@@ -335,6 +644,28 @@ def canonicalise(rel, tree, table=None, src=None):
     if src is not None and table.get('__digests__', {}).get(rel) == \
             hashlib.sha1(src.encode()).hexdigest():
         return 0
+    restore_idioms(rel, tree)        # before renaming: a re-ordered first
+    #                                  binding would mislead the signatures
+    return _rename_locals(rel, tree, table)
+
+
+def restore_package(modules, sources):
+    """second pass of the loader: idiom restoration for every file whose text
+    is not the reference text; returns the number of functions restored (0
+    and a reason when the package defines operator methods)"""
+    bad = operators_plain(modules)
+    if bad:
+        return 0, 'operator methods defined: ' + ', '.join(bad[:4])
+    dig = load_table().get('__digests__', {})
+    n = 0
+    for rel, tree in modules.items():
+        if dig.get(rel) == hashlib.sha1(sources[rel].encode()).hexdigest():
+            continue
+        n += restore_idioms(rel, tree)
+    return n, ''
+
+
+def _rename_locals(rel, tree, table):
     renamed = 0
     for key, fn in iter_functions(rel, tree):
         ref = table.get(key)
